@@ -87,7 +87,7 @@ class MPFixedFormat(OrdinalFormat):
         return xr.is_more_significant(self.nmin)
 
     def canonical_under(self, x: Float) -> bool:
-        if not isinstance(x, Float) and self.representable_in(x):
+        if not isinstance(x, Float) or not self.representable_in(x):
             raise TypeError(f'Expected a representable \'Float\', got \'{type(x)}\' for x={x}')
         return x.exp == self.expmin
 
@@ -97,15 +97,17 @@ class MPFixedFormat(OrdinalFormat):
         return x.is_nonzero()
 
     def normalize(self, x: Float) -> Float:
-        if not isinstance(x, Float) and self.representable_in(x):
+        if not isinstance(x, Float) or not self.representable_in(x):
             raise TypeError(f'Expected a representable \'Float\', got \'{type(x)}\' for x={x}')
 
+        # move the significand to `self.expmin`; for a representable value
+        # no digit is shifted out when `offset < 0`
         offset = x.exp - self.expmin
         if offset > 0:
-            c = x.c >> offset
+            c = x.c << offset
             exp = x.exp - offset
         elif offset < 0:
-            c = x.c << -offset
+            c = x.c >> -offset
             exp = x.exp - offset
         else:
             c = x.c
